@@ -585,28 +585,51 @@ func orderString(order []form, ms []meth) string {
 	return strings.Join(parts, " ")
 }
 
-// isLate: in this order some method that flavor f inherits from a component
-// (a method of g != f, g in precedence(f)) is defined after f's defflavor.
+// isLate: in this order some flavor h in precedence(f) (f included) was
+// defined BEFORE a method of one of h's components g != h, so that method had
+// to be spliced into h's already built table (and f's table is either spliced
+// too or copied from h's).
 func isLate(comps [][]int, ms []meth, order []form, f int) bool {
-	p := realRef.precedence(comps, f)
-	in := map[int]bool{}
-	for _, g := range p {
-		in[g] = true
-	}
-	seenD := false
-	for _, fm := range order {
+	pos := map[int]int{}
+	for i, fm := range order {
 		if !fm.isMeth {
-			if fm.idx == f {
-				seenD = true
-			}
-			continue
+			pos[fm.idx] = i
 		}
-		g := ms[fm.idx].f
-		if seenD && g != f && in[g] {
-			return true
+	}
+	for _, h := range realRef.precedence(comps, f) {
+		anc := map[int]bool{}
+		for _, g := range realRef.precedence(comps, h)[1:] {
+			anc[g] = true
+		}
+		for i, fm := range order {
+			if fm.isMeth && anc[ms[fm.idx].f] && pos[h] < i {
+				return true
+			}
 		}
 	}
 	return false
+}
+
+// expectTable renders the per-flavor method table a correct implementation
+// would hold for :m (used only to label failures table=ok|wrong; the verdict
+// is always taken from the observed trace).
+func expectTable(prec []int, ms []meth) string {
+	var parts []string
+	for _, g := range prec {
+		s := ""
+		for _, k := range []byte{'w', 'b', 'p', 'a'} {
+			if hasMeth(ms, g, k) {
+				s += string(k)
+			}
+		}
+		if s != "" {
+			parts = append(parts, "f"+strconv.Itoa(g)+":"+s)
+		}
+	}
+	if len(parts) == 0 {
+		return "<no :m>"
+	}
+	return "[" + strings.Join(parts, " ") + "]"
 }
 
 // ---------------------------------------------------------------------------
